@@ -57,7 +57,7 @@ def confirm(mod, failure):
 
 
 def _reach(mod, rec, src, q, detail):
-    if not getattr(mod, 'needs_reach', False):
+    if not getattr(mod, 'needs_reach', False) or q.get('no_reach'):
         return 'confirmed', detail
     from . import reach
     hist = reach.find_history(src.m, q)
